@@ -9,8 +9,9 @@ PROP = "C11"
 LEVEL = "exploration"
 RULE = ("call histories of 1-6 gen_params operations executed in ONE pristine child interpreter (forked from a zygote "
         "started with a PYTHONHASHSEED from {0,1,7,1234}): jobs over generated .ff force fields (1-3 blocks of 1-4 atoms, "
-        "bond/angle links incl. conditional #ifdef/#ifndef interactions, 1-3 files) x residue graphs (-seq lists and .json: "
-        "linear, tree, star, ring, <= 10 residues) and over shipped libraries, interleaved with failing calls, calls writing "
+        "bond/angle links incl. conditional #ifdef/#ifndef interactions, 1-3 files) x residue graphs (-seq lists, .json and "
+        "line-wrapped .txt/.fasta/.ig sequence files: linear, tree, star, ring, <= 10 residues) and over shipped libraries "
+        "(polymers, proteins, DNA strands incl. circular ones), interleaved with failing calls, calls writing "
         "to the same path (backups), a cwd different from the output directory, and calls through bin/polyply main(); "
         "after every successful call the file is read back through a wrapper .top with Topology.from_gmx_topfile and "
         "compared with the molecule object intercepted at the writer (atoms, interaction multisets with parameters and "
@@ -22,7 +23,7 @@ REAL_VS_STUB = {"real": ["load_ff_library, ff/itp parsers, MetaMolecule builders
                          "find_missing_edges, vermouth write_molecule_itp + DeferredFileWriter, Topology.from_gmx_topfile, "
                          "bin/polyply main() (argument parsing) in a fraction of the calls, real file system"],
                 "stub": ["tqdm disabled", "sys.argv pinned", "os.listdir of the library directory sorted/permuted by the harness"]}
-PROBES = ["earlier_output_directory_removed", "raised_after_output_was_written", "atom_deleting_link", "read_back_next_to_lower_case_namesake", "read_back_through_nested_include", "read_back_from_other_cwd_with_decoy", "read_back_with_guard_tags_defined", "publish_across_filesystems", "via_main", "same_path_backup", "after_failed_call", "cwd_differs", "lib_job", "conditional_interactions",
+PROBES = ["sequence_file_ig_wrapped", "sequence_file_fasta_wrapped", "sequence_file_txt_wrapped", "earlier_output_directory_removed", "raised_after_output_was_written", "atom_deleting_link", "read_back_next_to_lower_case_namesake", "read_back_through_nested_include", "read_back_from_other_cwd_with_decoy", "read_back_with_guard_tags_defined", "publish_across_filesystems", "via_main", "same_path_backup", "after_failed_call", "cwd_differs", "lib_job", "conditional_interactions",
           "json_graph", "cyclic_graph"]
 
 
@@ -51,7 +52,17 @@ def gen_job(verif_seed, tier, index):
         elif r < 0.22:
             op = histgen.lib_op(g, out=out)
         elif r < 0.3:
-            op = histgen.protein_op(g, histgen.protein_graph(g), out=out)
+            prg = histgen.protein_graph(g)
+            op = histgen.protein_op(g, prg, out=out)
+            if g.random() < 0.4:
+                op["graph"] = histgen.protein_fasta_graph(g, prg)      # the same chain as a line-wrapped .fasta file
+        elif r < 0.36:
+            # DNA strand over a shipped library, described by a line-wrapped .ig / .fasta sequence file or a .json graph
+            drg = histgen.dna_graph(g) if g.random() < 0.7 else histgen.dna_ring_graph(g)
+            op = histgen.dna_op(g, drg, "martini2" if drg["shape"] == "ring" else g.choice(["martini2", "parmbsc1"]),
+                                False, out=out)
+            if g.random() < 0.75:
+                op["graph"] = histgen.dna_file_graph(g, drg)
         else:
             op = histgen.make_op(ff, rg, g, out=out)
         if g.random() < 0.3:
@@ -107,6 +118,9 @@ def run_job(job):
             probes["lib_job"] = probes.get("lib_job", 0) + 1
         if op["graph"]["kind"] == "json":
             probes["json_graph"] = probes.get("json_graph", 0) + 1
+        if op["graph"]["kind"] == "file":
+            k = "sequence_file_" + op["graph"]["ext"][1:] + ("_wrapped" if op["graph"].get("lines", 1) > 1 else "")
+            probes[k] = probes.get(k, 0) + 1
         if op.get("resgraph") and op["resgraph"]["shape"] == "ring":
             probes["cyclic_graph"] = probes.get("cyclic_graph", 0) + 1
         if r["status"] != "ok":
@@ -155,7 +169,7 @@ def run_job(job):
             "ntkey": digest, "nontrivial": nontrivial, "faults": {"failing_call_in_history": sum(
                 1 for r in res["ops"] if r["status"] != "ok")}, "probes": probes,
             "sample": {"hashseed": job["hashseed"], "ops": [{"out": o["out"], "graph": o["graph"] if o["graph"]["kind"] == "seq"
-                                                            else {"kind": "json", "shape": (o.get("resgraph") or {}).get("shape"),
+                                                            else {"kind": o["graph"]["kind"] + o["graph"].get("ext", ""), "shape": (o.get("resgraph") or {}).get("shape"),
                                                                   "resnames": (o.get("resgraph") or {}).get("resnames")},
                                                             "lib": o.get("lib"), "files": [f for f, _ in o.get("files", [])],
                                                             "expect": o.get("expect", "ok"), "cwd": o.get("cwd"),
